@@ -13,6 +13,8 @@ pub const ENV: u32 = 2;
 pub const STMTS: u32 = 4;
 /// Record memory events (promotion, pool release, frame reset, return relocation).
 pub const MEM: u32 = 8;
+/// Record scratch-arena events (init, borrow, drop).
+pub const SCRATCH: u32 = 16;
 
 thread_local! {
     static SINK: RefCell<Option<Vec<String>>> = const { RefCell::new(None) };
